@@ -6,17 +6,26 @@
 
   Full statement (`C04_full`) is NOT a theorem of the pinned code: three classes of calls violate it
   (`C04_cex_*`, each replayed on the implementation and listed in known_findings.json). What is
-  proved for all signatures and calls, with no size bound:
-    * every arity rejection class of Python is diagnosed (`C04_posonly_short`, `C04_too_many`,
-      `C04_unexpected_keyword`, `C04_multiple_values`);
-    * positional calls bind exactly the i-th parameter to the i-th argument with no diagnostic
-      (`C04_positional`), `*args` is always mapped to the tuple stand-in (`C04_vararg`);
-    * a keyword naming a still-unfilled positional-or-keyword / keyword-only parameter binds it
-      to that argument (`C04_keyword_binds`).
+  proved for all signatures (pairwise distinct parameter names) and all calls, with no size bound
+  (helper development: RattrProofs/Lemmas/Swaps.lean):
+    * `C04_partial` — outside E1 (keyword spelled like a positional-only / `*args` / `**kwargs`
+      parameter while `**kwargs` exists) and E2 (omitted positional-only parameter): an accepted
+      call gets exactly Python's binding (lenient reading for `**kwargs`) and no diagnostic; a call
+      rejected for an arity reason other than a missing argument is diagnosed;
+      `C04_partial_strict` — additionally outside E3 (`**kwargs` receives nothing): `C04_at`;
+      `C04_partial_sharp` — the same with the sharp first exclusion `E1s ⊆ E1`;
+    * `C04_rejected_diagnosed` — part (c) with no exclusion at all;
+    * `C04_exact` — `C04_at` holds iff Python rejects the call or the call is outside
+      `E1s ∪ E2 ∪ E3` (so the three classes are exactly the defects; `C04_E1s_diagnosed`,
+      `C04_accepted_clean_iff`, `C04_E3_unmapped`);
+    * stand-alone facts: `C04_posonly_short`, `C04_too_many`, `C04_positional`,
+      `C04_vararg_always_mapped`, `C04_unexpected_keyword`, `C04_multiple_values`,
+      `C04_keyword_binds`.
 -/
 import RattrModel.Swaps
 import RattrModel.Spec.PyBind
 import RattrModel.Generated.C04
+import RattrProofs.Lemmas.Swaps
 
 namespace Rattr.C04
 open Rattr Rattr.Swaps
@@ -162,5 +171,591 @@ theorem C04_too_many (si : StandIns α) (f : Iface α) (c : CallArgs α)
     simp at this
     omega
   simp [hne]
+
+/-! ### The general partial theorem (all signatures, all calls, no size bound)
+
+Proof: `RattrProofs/Lemmas/Swaps.lean` — the positional loops are `Spec.zipPos`; the keyword loop
+and `Spec.bindKws` are run in lock-step under the invariant `SwapsLemmas.Inv`. -/
+
+open Rattr.SwapsLemmas
+
+/-- (E1) `**kwargs` exists and some keyword is spelled like a positional-only parameter, like the
+`*args` parameter or like the `**kwargs` parameter itself (Python puts it into `**kwargs`; the
+pinned code reports "by position and name"). -/
+def E1 (s : Spec.Sig α) (c : CallArgs α) : Prop :=
+  s.kwarg.isSome = true ∧
+    ∃ kv ∈ c.kwargs, kv.1 ∈ s.posonly.map (·.name) ∨ kv.1 ∈ s.vararg.toList ∨ kv.1 ∈ s.kwarg.toList
+
+/-- (E2) a positional-only parameter is omitted (Python accepts iff it has a default; the pinned
+code always reports and drops every swap). -/
+def E2 (s : Spec.Sig α) (c : CallArgs α) : Prop := c.args.length < s.posonly.length
+
+/-- (E3) `**kwargs` exists and no keyword goes into it: every keyword names a
+positional-or-keyword or keyword-only parameter (the pinned code leaves `**kwargs` unmapped). -/
+def E3 (s : Spec.Sig α) (c : CallArgs α) : Prop :=
+  s.kwarg.isSome = true ∧
+    ∀ kv ∈ c.kwargs, kv.1 ∈ s.args.map (·.name) ∨ kv.1 ∈ s.kwonly.map (·.name)
+
+/-- exactly the three known defect classes -/
+def Excluded (s : Spec.Sig α) (c : CallArgs α) : Prop := E1 s c ∨ E2 s c ∨ E3 s c
+
+instance (s : Spec.Sig α) (c : CallArgs α) : Decidable (E1 s c) := by unfold E1; infer_instance
+instance (s : Spec.Sig α) (c : CallArgs α) : Decidable (E2 s c) := by unfold E2; infer_instance
+instance (s : Spec.Sig α) (c : CallArgs α) : Decidable (E3 s c) := by unfold E3; infer_instance
+instance (s : Spec.Sig α) (c : CallArgs α) : Decidable (Excluded s c) := by
+  unfold Excluded; infer_instance
+
+/-- **C04, general partial theorem.** For every signature with pairwise distinct parameter names
+and every call with pairwise distinct keywords, outside E1 and E2 and whatever the stand-ins are:
+(a) a call Python accepts is bound exactly as Python binds it (`*args ↦ @Tuple` whenever it
+exists, `**kwargs ↦ @Dict` iff it received something) and (b) nothing is diagnosed; (c) a call
+Python rejects for an arity reason other than a missing argument is diagnosed. -/
+theorem C04_partial (si : StandIns α) (s : Spec.Sig α) (c : CallArgs α)
+    (hn : s.iface.all.Nodup) (hk : (c.kwargs.map Prod.fst).Nodup)
+    (hE1 : ¬ E1 s c) (hE2 : ¬ E2 s c) :
+    match Spec.pyBind s c with
+    | .ok b => (construct si s.iface c).2 = [] ∧
+               SameMap (construct si s.iface c).1 (Spec.expectedSwapsLenient si s b)
+    | .error .missingRequired => True
+    | .error _ => (construct si s.iface c).2 ≠ [] := by
+  have hlen : s.posonly.length ≤ c.args.length := by unfold E2 at hE2; omega
+  obtain ⟨filled, h1, h2, h3, -, -⟩ := zipPos_append_summary s.posonly s.args c.args hlen
+  have hfill : ∀ x ∈ filled, x ∈ s.iface.args := by
+    intro x hx
+    show x ∈ s.args.map (·.name)
+    rw [h2]; exact List.mem_append.mpr (Or.inl hx)
+  have hclash : ∀ kv ∈ c.kwargs, ¬ KwClash s.iface kv.1 := by
+    intro kv hkv hc
+    exact hE1 ⟨hc.1, kv, hkv, hc.2⟩
+  have I0 : Inv si s.iface filled (m0 si s c) (st0 s c) c.kwargs :=
+    Inv_init si s.iface hn _ _ s.kwonly filled h1 h2 rfl c.kwargs
+  have hloop :
+      match Spec.bindKws filled s.kwarg.isSome (st0 s c) c.kwargs with
+      | .ok st' =>
+          Inv si s.iface filled (c.kwargs.foldl (kwStep si s.kwarg s.iface.all) (m0 si s c)) st' []
+      | .error e => e ≠ .missingRequired ∧ e ≠ .tooManyPositional ∧
+          Diag (c.kwargs.foldl (kwStep si s.kwarg s.iface.all) (m0 si s c)) :=
+    kw_loop si s.iface filled hn hfill c.kwargs _ _ I0 hk hclash
+  rw [pyBind_eq s c hlen, construct_eq si s c hn hlen]
+  have hf0 : filled0 s c = filled := h3
+  rw [hf0]
+  by_cases htm : (Spec.zipPos (s.posonly ++ s.args) c.args).2.2 ≠ [] ∧ s.vararg.isNone = true
+  · rw [if_pos htm]
+    have : (Spec.zipPos (s.posonly ++ s.args) c.args).2.2 ≠ [] ∧ s.vararg = none :=
+      ⟨htm.1, by simpa using htm.2⟩
+    simp [this]
+  · rw [if_neg htm]
+    have htm' : ¬ ((Spec.zipPos (s.posonly ++ s.args) c.args).2.2 ≠ [] ∧ s.vararg = none) := by
+      intro h; exact htm ⟨h.1, by simp [h.2]⟩
+    generalize Spec.bindKws filled s.kwarg.isSome (st0 s c) c.kwargs = r at hloop ⊢
+    cases r with
+    | error e =>
+      obtain ⟨he1, he2, hd⟩ := hloop
+      have hne : (List.foldl (kwStep si s.kwarg s.iface.all) (m0 si s c) c.kwargs).unexpected ≠ [] ∨
+          (List.foldl (kwStep si s.kwarg s.iface.all) (m0 si s c) c.kwargs).byPosName ≠ [] := hd
+      cases e <;> first | exact absurd rfl he1 | exact absurd rfl he2 | skip
+      all_goals
+        simp only [ne_eq]
+        rcases hne with h | h <;> simp [h]
+    | ok st' =>
+      have I : Inv si s.iface filled _ st' [] := hloop
+      simp only []
+      by_cases hm : st'.open_.any (fun p => !p.hasDefault) = true
+      · rw [if_pos hm]; trivial
+      · rw [if_neg hm]
+        refine ⟨?_, ?_⟩
+        · simp [htm', I.clean.1, I.clean.2]
+        · intro k
+          exact I.same k
+
+/-- **C04 outside the three defect classes**: the full statement `C04_at` (strict reading:
+`**kwargs ↦ @Dict` whenever the parameter exists) holds for every signature and call that is not
+`Excluded`. -/
+theorem C04_partial_strict (si : StandIns α) (s : Spec.Sig α) (c : CallArgs α)
+    (hn : s.iface.all.Nodup) (hk : (c.kwargs.map Prod.fst).Nodup) (hX : ¬ Excluded s c) :
+    C04_at si s c := by
+  have hE1 : ¬ E1 s c := fun h => hX (Or.inl h)
+  have hE2 : ¬ E2 s c := fun h => hX (Or.inr (Or.inl h))
+  have hE3 : ¬ E3 s c := fun h => hX (Or.inr (Or.inr h))
+  have hlen : s.posonly.length ≤ c.args.length := by unfold E2 at hE2; omega
+  have main := C04_partial si s c hn hk hE1 hE2
+  unfold C04_at
+  generalize hp : Spec.pyBind s c = r at main ⊢
+  cases r with
+  | error e => cases e <;> exact main
+  | ok b =>
+    have heq : Spec.expectedSwaps si s b = Spec.expectedSwapsLenient si s b := by
+      unfold Spec.expectedSwaps Spec.expectedSwapsLenient
+      by_cases hkw : s.kwarg.isSome = true
+      · have hex : ∃ kv ∈ c.kwargs,
+            kv.1 ∉ s.args.map (·.name) ∧ kv.1 ∉ s.kwonly.map (·.name) := by
+          apply Classical.byContradiction
+          intro hne
+          apply hE3
+          refine ⟨hkw, fun kv hkv => ?_⟩
+          apply Classical.byContradiction
+          intro h
+          exact hne ⟨kv, hkv, fun h1 => h (Or.inl h1), fun h2 => h (Or.inr h2)⟩
+        have := pyBind_ok_got s c hlen b hp hex
+        rw [if_pos this]
+      · have : s.kwarg = none := by simpa using hkw
+        simp [this]
+    simp only [] at main ⊢
+    rw [heq]; exact main
+
+/-- **C04 (c), unconditionally.** For every signature with pairwise distinct parameter names and
+every call (no exclusion at all, keywords need not even be distinct): a call Python rejects for an
+arity reason other than a missing argument is diagnosed. -/
+theorem C04_rejected_diagnosed (si : StandIns α) (s : Spec.Sig α) (c : CallArgs α)
+    (hn : s.iface.all.Nodup) (e : Spec.BindErr) (h : Spec.pyBind s c = .error e)
+    (he : e ≠ .missingRequired) :
+    (construct si s.iface c).2 ≠ [] := by
+  by_cases hE2 : c.args.length < s.posonly.length
+  · rw [C04_posonly_short si s.iface c (by simpa [Spec.Sig.iface] using hE2)]; simp
+  · have hlen : s.posonly.length ≤ c.args.length := by omega
+    obtain ⟨filled, h1, h2, h3, -, -⟩ := zipPos_append_summary s.posonly s.args c.args hlen
+    have hfill : ∀ x ∈ filled, x ∈ s.iface.args := by
+      intro x hx
+      show x ∈ s.args.map (·.name)
+      rw [h2]; exact List.mem_append.mpr (Or.inl hx)
+    have I0 : InvW si s.iface (m0 si s c) (st0 s c) :=
+      (Inv_init si s.iface hn _ _ s.kwonly filled h1 h2 rfl []).toInvW
+    have hloop :
+        match Spec.bindKws filled s.kwarg.isSome (st0 s c) c.kwargs with
+        | .ok st' =>
+            InvW si s.iface (c.kwargs.foldl (kwStep si s.kwarg s.iface.all) (m0 si s c)) st'
+        | .error e => e ≠ .missingRequired ∧ e ≠ .tooManyPositional ∧
+            Diag (c.kwargs.foldl (kwStep si s.kwarg s.iface.all) (m0 si s c)) :=
+      kw_loopW si s.iface filled hn hfill c.kwargs _ _ I0
+    rw [pyBind_eq s c hlen] at h
+    rw [construct_eq si s c hn hlen]
+    have hf0 : filled0 s c = filled := h3
+    rw [hf0] at h
+    by_cases htm : (Spec.zipPos (s.posonly ++ s.args) c.args).2.2 ≠ [] ∧ s.vararg.isNone = true
+    · have : (Spec.zipPos (s.posonly ++ s.args) c.args).2.2 ≠ [] ∧ s.vararg = none :=
+        ⟨htm.1, by simpa using htm.2⟩
+      simp [this]
+    · rw [if_neg htm] at h
+      generalize Spec.bindKws filled s.kwarg.isSome (st0 s c) c.kwargs = r at hloop h
+      cases r with
+      | error e' =>
+        obtain ⟨-, -, hd⟩ := hloop
+        have hne :
+            (List.foldl (kwStep si s.kwarg s.iface.all) (m0 si s c) c.kwargs).unexpected ≠ [] ∨
+            (List.foldl (kwStep si s.kwarg s.iface.all) (m0 si s c) c.kwargs).byPosName ≠ [] := hd
+        simp only [ne_eq]
+        rcases hne with h' | h' <;> simp [h']
+      | ok st' =>
+        simp only [] at h
+        split at h
+        · injection h with h; exact absurd h.symm he
+        · cases h
+
+/-! ### The sharp form of the first exclusion
+
+A keyword spelled like the `**kwargs` parameter itself is harmless unless an earlier keyword has
+already gone into `**kwargs`. `E1s ⊆ E1`; outside `E1s` and `E2` the theorem still holds
+(`C04_partial_sharp`), and inside `E1s` (outside `E2`) the pinned code always diagnoses
+(`C04_E1s_diagnosed`) — so for the calls Python accepts, with all positional-only parameters
+supplied, "no diagnostic" is *equivalent* to `¬ E1s` (`C04_accepted_clean_iff`). -/
+
+/-- (E1, sharp) `**kwargs` exists and some keyword is spelled like a positional-only parameter or
+like the `*args` parameter, or the first keyword that Python puts into `**kwargs` is followed by a
+keyword spelled like the `**kwargs` parameter. -/
+def E1s (s : Spec.Sig α) (c : CallArgs α) : Prop :=
+  s.kwarg.isSome = true ∧
+    ((∃ kv ∈ c.kwargs, kv.1 ∈ s.posonly.map (·.name) ∨ kv.1 ∈ s.vararg.toList) ∨
+      selfClash s.iface c.kwargs = true)
+
+instance (s : Spec.Sig α) (c : CallArgs α) : Decidable (E1s s c) := by unfold E1s; infer_instance
+
+theorem E1s_imp_E1 (s : Spec.Sig α) (c : CallArgs α) (h : E1s s c) : E1 s c := by
+  obtain ⟨hk, h⟩ := h
+  refine ⟨hk, ?_⟩
+  rcases h with ⟨kv, hkv, h⟩ | h
+  · exact ⟨kv, hkv, by rcases h with h | h; exact Or.inl h; exact Or.inr (Or.inl h)⟩
+  · obtain ⟨kv, hkv, h⟩ := selfClash_mem _ _ h
+    exact ⟨kv, hkv, Or.inr (Or.inr h)⟩
+
+/-- `C04_partial` under the sharp exclusion. -/
+theorem C04_partial_sharp (si : StandIns α) (s : Spec.Sig α) (c : CallArgs α)
+    (hn : s.iface.all.Nodup) (hk : (c.kwargs.map Prod.fst).Nodup)
+    (hE1 : ¬ E1s s c) (hE2 : ¬ E2 s c) :
+    match Spec.pyBind s c with
+    | .ok b => (construct si s.iface c).2 = [] ∧
+               SameMap (construct si s.iface c).1 (Spec.expectedSwapsLenient si s b)
+    | .error .missingRequired => True
+    | .error _ => (construct si s.iface c).2 ≠ [] := by
+  have hlen : s.posonly.length ≤ c.args.length := by unfold E2 at hE2; omega
+  obtain ⟨filled, h1, h2, h3, -, -⟩ := zipPos_append_summary s.posonly s.args c.args hlen
+  have hfill : ∀ x ∈ filled, x ∈ s.iface.args := by
+    intro x hx
+    show x ∈ s.args.map (·.name)
+    rw [h2]; exact List.mem_append.mpr (Or.inl hx)
+  have hclash : ∀ kv ∈ c.kwargs, ¬ KwClashS s.iface kv.1 := by
+    intro kv hkv hc
+    exact hE1 ⟨hc.1, Or.inl ⟨kv, hkv, hc.2⟩⟩
+  have hself : selfClash s.iface c.kwargs = false := by
+    cases hsc : selfClash s.iface c.kwargs with
+    | false => rfl
+    | true =>
+      obtain ⟨kv, -, hkv⟩ := selfClash_mem _ _ hsc
+      have hks : s.kwarg.isSome = true := by
+        have : kv.1 ∈ s.kwarg.toList := hkv
+        cases hkk : s.kwarg <;> simp [hkk] at this ⊢
+      exact absurd ⟨hks, Or.inr hsc⟩ hE1
+  have I0 : Inv si s.iface filled (m0 si s c) (st0 s c) c.kwargs :=
+    Inv_init si s.iface hn _ _ s.kwonly filled h1 h2 rfl c.kwargs
+  have hro : ∀ kv ∈ c.kwargs, kv.1 ∈ s.iface.args ++ s.iface.kwonly →
+      kv.1 ∈ (m0 si s c).args ++ (m0 si s c).kwonly ∨ kv.1 ∈ filled := by
+    intro kv _ hm
+    have hm' : kv.1 ∈ s.args.map (·.name) ++ s.kwonly.map (·.name) := hm
+    rw [h2] at hm'
+    simp only [m0, List.mem_append] at hm' ⊢
+    grind
+  have hloop :
+      match Spec.bindKws filled s.kwarg.isSome (st0 s c) c.kwargs with
+      | .ok st' =>
+          Inv si s.iface filled (c.kwargs.foldl (kwStep si s.kwarg s.iface.all) (m0 si s c)) st' []
+      | .error e => e ≠ .missingRequired ∧ e ≠ .tooManyPositional ∧
+          Diag (c.kwargs.foldl (kwStep si s.kwarg s.iface.all) (m0 si s c)) :=
+    kw_loopS si s.iface filled hn hfill c.kwargs _ _ I0 hk hclash hro
+      (fun hg => absurd rfl hg) (fun _ => hself)
+  rw [pyBind_eq s c hlen, construct_eq si s c hn hlen]
+  have hf0 : filled0 s c = filled := h3
+  rw [hf0]
+  by_cases htm : (Spec.zipPos (s.posonly ++ s.args) c.args).2.2 ≠ [] ∧ s.vararg.isNone = true
+  · rw [if_pos htm]
+    have : (Spec.zipPos (s.posonly ++ s.args) c.args).2.2 ≠ [] ∧ s.vararg = none :=
+      ⟨htm.1, by simpa using htm.2⟩
+    simp [this]
+  · rw [if_neg htm]
+    have htm' : ¬ ((Spec.zipPos (s.posonly ++ s.args) c.args).2.2 ≠ [] ∧ s.vararg = none) := by
+      intro h; exact htm ⟨h.1, by simp [h.2]⟩
+    generalize Spec.bindKws filled s.kwarg.isSome (st0 s c) c.kwargs = r at hloop ⊢
+    cases r with
+    | error e =>
+      obtain ⟨he1, he2, hd⟩ := hloop
+      have hne : (List.foldl (kwStep si s.kwarg s.iface.all) (m0 si s c) c.kwargs).unexpected ≠ [] ∨
+          (List.foldl (kwStep si s.kwarg s.iface.all) (m0 si s c) c.kwargs).byPosName ≠ [] := hd
+      cases e <;> first | exact absurd rfl he1 | exact absurd rfl he2 | skip
+      all_goals
+        simp only [ne_eq]
+        rcases hne with h | h <;> simp [h]
+    | ok st' =>
+      have I : Inv si s.iface filled _ st' [] := hloop
+      simp only []
+      by_cases hm : st'.open_.any (fun p => !p.hasDefault) = true
+      · rw [if_pos hm]; trivial
+      · rw [if_neg hm]
+        refine ⟨?_, ?_⟩
+        · simp [htm', I.clean.1, I.clean.2]
+        · intro k
+          exact I.same k
+
+/-- Inside the sharp exclusion (with every positional-only parameter supplied) the pinned code
+always emits the "by position and name" diagnostic — whether or not Python accepts the call. -/
+theorem C04_E1s_diagnosed (si : StandIns α) (s : Spec.Sig α) (c : CallArgs α)
+    (hn : s.iface.all.Nodup) (hE2 : ¬ E2 s c) (h : E1s s c) :
+    ∃ ks, SwapDiag.byPositionAndName ks ∈ (construct si s.iface c).2 := by
+  have hlen : s.posonly.length ≤ c.args.length := by unfold E2 at hE2; omega
+  obtain ⟨-, h⟩ := h
+  rcases h with ⟨kv, hkv, h⟩ | h
+  · obtain ⟨ks, h1, -⟩ := byPos_of_contains_sig si s c hn hlen kv hkv h
+    exact ⟨ks, h1⟩
+  · exact selfClash_sig si s c hn hlen h
+
+/-- **Exactness of the first exclusion.** For a call Python accepts, with all positional-only
+parameters supplied: the pinned code is silent iff the call is outside `E1s`. -/
+theorem C04_accepted_clean_iff (si : StandIns α) (s : Spec.Sig α) (c : CallArgs α)
+    (hn : s.iface.all.Nodup) (hk : (c.kwargs.map Prod.fst).Nodup) (hE2 : ¬ E2 s c)
+    (b : Spec.Binding α) (hb : Spec.pyBind s c = .ok b) :
+    (construct si s.iface c).2 = [] ↔ ¬ E1s s c := by
+  constructor
+  · intro hnil h
+    obtain ⟨ks, hks⟩ := C04_E1s_diagnosed si s c hn hE2 h
+    rw [hnil] at hks
+    simp at hks
+  · intro h
+    have := C04_partial_sharp si s c hn hk h hE2
+    rw [hb] at this
+    exact this.1
+
+/-! ### Exactness of the whole exclusion -/
+
+/-- the three defect classes, the first in its sharp form -/
+def ExcludedS (s : Spec.Sig α) (c : CallArgs α) : Prop := E1s s c ∨ E2 s c ∨ E3 s c
+
+instance (s : Spec.Sig α) (c : CallArgs α) : Decidable (ExcludedS s c) := by
+  unfold ExcludedS; infer_instance
+
+theorem ExcludedS_imp_Excluded (s : Spec.Sig α) (c : CallArgs α) (h : ExcludedS s c) :
+    Excluded s c := by
+  rcases h with h | h | h
+  · exact Or.inl (E1s_imp_E1 s c h)
+  · exact Or.inr (Or.inl h)
+  · exact Or.inr (Or.inr h)
+
+/-- outside E3 the strict and the lenient reading of an accepted call coincide -/
+theorem expectedSwaps_eq_lenient (si : StandIns α) (s : Spec.Sig α) (c : CallArgs α)
+    (hE2 : ¬ E2 s c) (hE3 : ¬ E3 s c) (b : Spec.Binding α) (hp : Spec.pyBind s c = .ok b) :
+    Spec.expectedSwaps si s b = Spec.expectedSwapsLenient si s b := by
+  have hlen : s.posonly.length ≤ c.args.length := by unfold E2 at hE2; omega
+  unfold Spec.expectedSwaps Spec.expectedSwapsLenient
+  by_cases hkw : s.kwarg.isSome = true
+  · have hex : ∃ kv ∈ c.kwargs,
+        kv.1 ∉ s.args.map (·.name) ∧ kv.1 ∉ s.kwonly.map (·.name) := by
+      apply Classical.byContradiction
+      intro hne
+      apply hE3
+      refine ⟨hkw, fun kv hkv => ?_⟩
+      apply Classical.byContradiction
+      intro h
+      exact hne ⟨kv, hkv, fun h1 => h (Or.inl h1), fun h2 => h (Or.inr h2)⟩
+    have := pyBind_ok_got s c hlen b hp hex
+    rw [if_pos this]
+  · have : s.kwarg = none := by simpa using hkw
+    simp [this]
+
+/-- Inside E3 (outside the other two classes) an accepted call leaves `**kwargs` unmapped. -/
+theorem C04_E3_unmapped (si : StandIns α) (s : Spec.Sig α) (c : CallArgs α)
+    (hn : s.iface.all.Nodup) (hk : (c.kwargs.map Prod.fst).Nodup)
+    (hE1 : ¬ E1s s c) (hE2 : ¬ E2 s c) (hE3 : E3 s c)
+    (b : Spec.Binding α) (hb : Spec.pyBind s c = .ok b) (kn : α) (hkn : s.kwarg = some kn) :
+    Dict.get? (construct si s.iface c).1 kn = none := by
+  have hlen : s.posonly.length ≤ c.args.length := by unfold E2 at hE2; omega
+  obtain ⟨hgot, hsub⟩ := pyBind_ok_E3 s c hlen hk b hb hE3.2
+  have main := C04_partial_sharp si s c hn hk hE1 hE2
+  rw [hb] at main
+  rw [main.2 kn]
+  obtain ⟨hd1, hd2⟩ := all_disj s.iface hn
+  unfold Spec.expectedSwapsLenient
+  simp only [hgot, ne_eq, not_true_eq_false, if_false, List.append_nil]
+  apply (get?_eq_none_iff _ _).mpr
+  simp only [List.map_append, List.mem_append, not_or, List.map_map, Function.comp_def,
+    List.map_id']
+  constructor
+  · intro hx
+    have h1 : kn ∈ s.iface.posonly ++ s.iface.args ++ s.iface.kwonly := hsub kn hx
+    have := (hd1 kn h1).2
+    have hk' : s.iface.kwarg = some kn := hkn
+    simp [hk'] at this
+  · intro hx
+    have hx' : kn ∈ s.iface.vararg.toList := by
+      show kn ∈ s.vararg.toList
+      simpa using hx
+    have := hd2 kn hx'
+    have hk' : s.iface.kwarg = some kn := hkn
+    simp [hk'] at this
+
+/-- **C04, exact form.** For every signature with pairwise distinct parameter names and every
+call with pairwise distinct keywords: the property holds at (signature, call) **iff** Python
+rejects the call or the call is outside the three defect classes. -/
+theorem C04_exact (si : StandIns α) (s : Spec.Sig α) (c : CallArgs α)
+    (hn : s.iface.all.Nodup) (hk : (c.kwargs.map Prod.fst).Nodup) :
+    C04_at si s c ↔ (∀ b, Spec.pyBind s c = .ok b → ¬ ExcludedS s c) := by
+  constructor
+  · intro hat b hb hX
+    unfold C04_at at hat
+    rw [hb] at hat
+    obtain ⟨hnil, hsame⟩ := hat
+    by_cases hE2 : E2 s c
+    · have := C04_posonly_short si s.iface c (by simpa [Spec.Sig.iface, E2] using hE2)
+      rw [this] at hnil
+      simp at hnil
+    · by_cases hE1 : E1s s c
+      · exact (C04_accepted_clean_iff si s c hn hk hE2 b hb).mp hnil hE1
+      · have hE3 : E3 s c := by
+          rcases hX with h | h | h
+          · exact absurd h hE1
+          · exact absurd h hE2
+          · exact h
+        obtain ⟨kn, hkn⟩ := Option.isSome_iff_exists.mp hE3.1
+        have hnone := C04_E3_unmapped si s c hn hk hE1 hE2 hE3 b hb kn hkn
+        rw [hsame kn] at hnone
+        have hmem : kn ∈ (Spec.expectedSwaps si s b).map Prod.fst := by
+          unfold Spec.expectedSwaps
+          simp [hkn]
+        exact ((get?_eq_none_iff _ _).mp hnone) hmem
+  · intro h
+    unfold C04_at
+    cases hp : Spec.pyBind s c with
+    | error e =>
+      cases e
+      case missingRequired => trivial
+      all_goals exact C04_rejected_diagnosed si s c hn _ hp (by simp)
+    | ok b =>
+      have hX := h b hp
+      have hE1 : ¬ E1s s c := fun h => hX (Or.inl h)
+      have hE2 : ¬ E2 s c := fun h => hX (Or.inr (Or.inl h))
+      have hE3 : ¬ E3 s c := fun h => hX (Or.inr (Or.inr h))
+      have main := C04_partial_sharp si s c hn hk hE1 hE2
+      rw [hp] at main
+      simp only []
+      rw [expectedSwaps_eq_lenient si s c hE2 hE3 b hp]
+      exact main
+
+/-! ### Non-vacuity of `C04_partial` / `C04_partial_strict`
+
+`def callee(p, /, a, b=0, *va, k, **kw)` (all five kinds; names 1..6) and three calls. -/
+
+/-- `def callee(p, /, a, b=0, *va, k, **kw)` -/
+def sigEx : Spec.Sig Nat :=
+  { posonly := [⟨1, false⟩], args := [⟨2, false⟩, ⟨3, true⟩], vararg := some 4,
+    kwonly := [⟨5, false⟩], kwarg := some 6 }
+
+/-- accepted: `callee(x0, x1, k=v1, extra=v2)` — every hypothesis of `C04_partial_strict` holds,
+Python accepts, and the conclusion is the non-trivial one. -/
+example :
+    let c : CallArgs Nat := { args := [50, 51], kwargs := [(5, 52), (7, 53)] }
+    sigEx.iface.all.Nodup ∧ (c.kwargs.map Prod.fst).Nodup ∧ ¬ Excluded sigEx c ∧
+    Spec.pyBind sigEx c
+      = .ok { explicit := [(1, 50), (2, 51), (5, 52)], varargGot := [], kwargGot := [(7, 53)] } ∧
+    construct siN sigEx.iface c = ([(1, 50), (2, 51), (4, 100), (5, 52), (6, 101)], []) := by
+  decide
+
+/-- accepted with surplus positionals and a keyword for a positional-or-keyword parameter:
+`callee(x0, x1, x2, x3, k=v1, extra=v2)`. -/
+example :
+    let c : CallArgs Nat := { args := [50, 51, 54, 55], kwargs := [(5, 52), (7, 53)] }
+    sigEx.iface.all.Nodup ∧ (c.kwargs.map Prod.fst).Nodup ∧ ¬ Excluded sigEx c ∧
+    Spec.pyBind sigEx c
+      = .ok { explicit := [(1, 50), (2, 51), (3, 54), (5, 52)], varargGot := [55],
+              kwargGot := [(7, 53)] } := by
+  decide
+
+/-- rejected ("multiple values for argument 'a'"): `callee(x0, x1, a=v, k=v1)` — the hypotheses of
+`C04_partial` hold and its conclusion is the diagnosed branch. -/
+example :
+    let c : CallArgs Nat := { args := [50, 51], kwargs := [(2, 52), (5, 53)] }
+    sigEx.iface.all.Nodup ∧ (c.kwargs.map Prod.fst).Nodup ∧ ¬ E1 sigEx c ∧ ¬ E2 sigEx c ∧
+    Spec.pyBind sigEx c = .error .multipleValues ∧
+    (construct siN sigEx.iface c).2 = [SwapDiag.byPositionAndName [2]] := by
+  decide
+
+/-- rejected ("unexpected keyword", no `**kwargs`): `def g(a, *, k)`; `g(x, k=v, zz=w)`. -/
+example :
+    let s : Spec.Sig Nat :=
+      { posonly := [], args := [⟨2, false⟩], vararg := none, kwonly := [⟨5, false⟩], kwarg := none }
+    let c : CallArgs Nat := { args := [50], kwargs := [(5, 52), (7, 53)] }
+    s.iface.all.Nodup ∧ (c.kwargs.map Prod.fst).Nodup ∧ ¬ E1 s c ∧ ¬ E2 s c ∧
+    Spec.pyBind s c = .error .unexpectedKeyword ∧
+    (construct siN s.iface c).2 = [SwapDiag.unexpectedKeywords [7]] := by
+  decide
+
+/-- the theorem instantiated on the first call really yields Python's binding, no diagnostic -/
+example :
+    (construct siN sigEx.iface { args := [50, 51], kwargs := [(5, 52), (7, 53)] }).2 = [] ∧
+    SameMap (construct siN sigEx.iface { args := [50, 51], kwargs := [(5, 52), (7, 53)] }).1
+      (Spec.expectedSwaps siN sigEx
+        { explicit := [(1, 50), (2, 51), (5, 52)], varargGot := [], kwargGot := [(7, 53)] }) := by
+  have h := C04_partial_strict siN sigEx { args := [50, 51], kwargs := [(5, 52), (7, 53)] }
+    (by decide) (by decide) (by decide)
+  have hp : Spec.pyBind sigEx { args := [50, 51], kwargs := [(5, 52), (7, 53)] }
+      = .ok { explicit := [(1, 50), (2, 51), (5, 52)], varargGot := [], kwargGot := [(7, 53)] } := by
+    decide
+  unfold C04_at at h
+  rw [hp] at h
+  exact h
+
+/-- `E1` but not `E1s`: `def callee(**kw)`, `callee(kw=v, zz=w)` — Python accepts, the pinned code
+is silent and binds as Python does (test, by kernel evaluation); `callee(zz=w, kw=v)` is in `E1s`. -/
+example :
+    let s : Spec.Sig Nat := { posonly := [], args := [], vararg := none, kwonly := [], kwarg := some 6 }
+    E1 s { args := [], kwargs := [(6, 50), (7, 51)] } ∧
+    ¬ E1s s { args := [], kwargs := [(6, 50), (7, 51)] } ∧
+    E1s s { args := [], kwargs := [(7, 51), (6, 50)] } ∧
+    construct siN s.iface { args := [], kwargs := [(6, 50), (7, 51)] } = ([(6, 101)], []) ∧
+    construct siN s.iface { args := [], kwargs := [(7, 51), (6, 50)] }
+      = ([(6, 101)], [SwapDiag.byPositionAndName [6]]) := by
+  decide
+
+/-- each exclusion is inhabited by the corresponding counterexample of the pinned code -/
+example :
+    E1 (α := Nat) { posonly := [⟨1, false⟩], args := [], vararg := none, kwonly := [], kwarg := some 9 }
+      { args := [50], kwargs := [(1, 51)] } ∧
+    E2 (α := Nat) { posonly := [⟨1, false⟩, ⟨2, true⟩], args := [], vararg := none, kwonly := [], kwarg := none }
+      { args := [50], kwargs := [] } ∧
+    E3 (α := Nat) { posonly := [], args := [], vararg := none, kwonly := [], kwarg := some 9 }
+      { args := [], kwargs := [] } := by
+  decide
+
+/-! ### Stand-alone facts, for every interface and every call (distinct parameter names) -/
+
+/-- The i-th positional-only / positional-or-keyword parameter receives exactly the i-th
+positional argument, whatever the keywords are. -/
+theorem C04_positional (si : StandIns α) (f : Iface α) (c : CallArgs α)
+    (hn : f.all.Nodup) (hlen : f.posonly.length ≤ c.args.length) :
+    ∀ pa ∈ List.zip (f.posonly ++ f.args) c.args,
+      Dict.get? (construct si f c).1 pa.1 = some pa.2 := by
+  have := positional_sig si (sigOf f) c (by rw [sigOf_iface]; exact hn)
+    (by simpa [sigOf] using hlen)
+  rwa [sigOf_iface] at this
+
+/-- `*args` is mapped to the tuple stand-in whenever it exists (and the call is not cut short by
+the positional-only diagnostic). -/
+theorem C04_vararg_always_mapped (si : StandIns α) (f : Iface α) (c : CallArgs α)
+    (hn : f.all.Nodup) (hlen : f.posonly.length ≤ c.args.length) (v : α)
+    (hv : f.vararg = some v) :
+    Dict.get? (construct si f c).1 v = some si.tuple := by
+  have := vararg_sig si (sigOf f) c (by rw [sigOf_iface]; exact hn)
+    (by simpa [sigOf] using hlen) v (by rw [sigOf_iface]; exact hv)
+  rwa [sigOf_iface] at this
+
+/-- No `**kwargs`: a keyword that is not a parameter name is reported in the
+"unexpected keyword arguments" diagnostic. -/
+theorem C04_unexpected_keyword (si : StandIns α) (f : Iface α) (c : CallArgs α)
+    (hn : f.all.Nodup) (hlen : f.posonly.length ≤ c.args.length) (hkw : f.kwarg = none)
+    (kv : α × α) (hmem : kv ∈ c.kwargs) (hall : kv.1 ∉ f.all) :
+    ∃ ks, SwapDiag.unexpectedKeywords ks ∈ (construct si f c).2 ∧ kv.1 ∈ ks := by
+  have := unexpected_sig si (sigOf f) c (by rw [sigOf_iface]; exact hn)
+    (by simpa [sigOf] using hlen) (by rw [sigOf_iface]; exact hkw) kv hmem
+    (by rw [sigOf_iface]; exact hall)
+  rwa [sigOf_iface] at this
+
+/-- A keyword naming a positionally filled parameter is reported in the "by position and name"
+diagnostic. -/
+theorem C04_multiple_values (si : StandIns α) (f : Iface α) (c : CallArgs α)
+    (hn : f.all.Nodup) (hlen : f.posonly.length ≤ c.args.length)
+    (kv : α × α) (hmem : kv ∈ c.kwargs)
+    (hfilled : kv.1 ∈ (List.zip (f.posonly ++ f.args) c.args).map Prod.fst) :
+    ∃ ks, SwapDiag.byPositionAndName ks ∈ (construct si f c).2 ∧ kv.1 ∈ ks := by
+  have := multiple_values_sig si (sigOf f) c (by rw [sigOf_iface]; exact hn)
+    (by simpa [sigOf] using hlen) kv hmem (by rw [sigOf_iface]; exact hfilled)
+  rwa [sigOf_iface] at this
+
+/-- A keyword naming a positional-or-keyword parameter not filled by position, or a keyword-only
+parameter, is mapped to its argument. -/
+theorem C04_keyword_binds (si : StandIns α) (f : Iface α) (c : CallArgs α)
+    (hn : f.all.Nodup) (hlen : f.posonly.length ≤ c.args.length)
+    (hk : (c.kwargs.map Prod.fst).Nodup) (kv : α × α) (hmem : kv ∈ c.kwargs)
+    (hopen : kv.1 ∈ f.args.drop (c.args.length - f.posonly.length) ∨ kv.1 ∈ f.kwonly) :
+    Dict.get? (construct si f c).1 kv.1 = some kv.2 := by
+  have := keyword_binds_sig si (sigOf f) c (by rw [sigOf_iface]; exact hn)
+    (by simpa [sigOf] using hlen) hk kv hmem (by rw [sigOf_iface]; exact hopen)
+  rwa [sigOf_iface] at this
+
+/-- hypotheses of the five stand-alone facts are satisfiable (tests, by kernel evaluation):
+`callee(x0, x1, x2, x3, k=v1)` fills `p, a, b` by position and `k` by keyword;
+`def g(a, b, *, k)`, `g(x, a=y, zz=w, b=z)` has a doubly given `a`, an unknown `zz`, a bound `b`. -/
+example :
+    let f := sigEx.iface
+    let c : CallArgs Nat := { args := [50, 51, 54, 55], kwargs := [(5, 52)] }
+    f.all.Nodup ∧ f.posonly.length ≤ c.args.length ∧ f.vararg = some 4 ∧
+    List.zip (f.posonly ++ f.args) c.args = [(1, 50), (2, 51), (3, 54)] ∧
+    (c.kwargs.map Prod.fst).Nodup ∧ (5, 52) ∈ c.kwargs ∧ 5 ∈ f.kwonly := by
+  decide
+
+example :
+    let f : Iface Nat := { posonly := [], args := [2, 3], vararg := none, kwonly := [5], kwarg := none }
+    let c : CallArgs Nat := { args := [50], kwargs := [(2, 51), (7, 52), (3, 53)] }
+    f.all.Nodup ∧ f.posonly.length ≤ c.args.length ∧ f.kwarg = none ∧
+    (c.kwargs.map Prod.fst).Nodup ∧
+    ((7, 52) ∈ c.kwargs ∧ 7 ∉ f.all) ∧
+    ((2, 51) ∈ c.kwargs ∧ 2 ∈ (List.zip (f.posonly ++ f.args) c.args).map Prod.fst) ∧
+    ((3, 53) ∈ c.kwargs ∧ 3 ∈ f.args.drop (c.args.length - f.posonly.length)) ∧
+    construct siN f c =
+      ([(2, 50), (3, 53)], [SwapDiag.unexpectedKeywords [7], SwapDiag.byPositionAndName [2]]) := by
+  decide
 
 end Rattr.C04
